@@ -26,6 +26,9 @@ type OpResult struct {
 	LibBefore string
 	LibAfter  string
 	LibHandle interface{}
+	fired     []bool
+	Extra     []*OpResult
+	Missing   int
 }
 
 // Class is the verdict class of a response: "ok" (200), "reject" (400),
